@@ -21,7 +21,7 @@ DATA_FNS = ["save_dataset"]
 PROJECT_FNS = ["save_model", "save_parameters", "save_scheme", "save_result"]
 UNKNOWN = "verif_unknown"
 FAILING = "verif_failing"
-TSTATES = ["absent", "file", "emptydir", "nonemptydir", "noparent"]
+TSTATES = ["absent", "file", "emptydir", "nonemptydir", "subdironly", "noparent"]
 INVARIANTS = ["TypeOK", "Refusal", "RefusalFirst", "RefusedOnlyWhenDue", "OverwriteOnlyIfAsked", "PreexistingUntouched",
               "UnrelatedUntouched", "UnknownFormat", "SourcePathOnlyOnSuccess"]
 PROPERTIES = ["NoWriteBeforeCheck"]
@@ -56,7 +56,7 @@ def spec_outcome(rec) -> tuple:
     """Projection of one terminal state of the specification onto what the harness can observe."""
     fs0, fs = rec["fs0"], rec["fs"]
     child = "none"
-    if fs0["child"]["kind"] == "file":
+    if fs0["child"]["kind"] != "absent":
         child = "absent" if fs["child"]["kind"] == "absent" else ("same" if fs["child"] == fs0["child"] else "changed")
     return (rec["exc"], fs["target"]["kind"], fs["target"] == fs0["target"], child, fs["sibling"] == fs0["sibling"], fs["out"]["kind"] == "file")
 
@@ -138,10 +138,13 @@ def build_tree(root: Path, call) -> Path:
         (parent / "keep2.me").write_bytes(b"unrelated file next to the target\n")
     if ts == "file":
         target.write_bytes(b"old content of the target\n")
-    elif ts in ("emptydir", "nonemptydir"):
+    elif ts in ("emptydir", "nonemptydir", "subdironly"):
         target.mkdir()
         if ts == "nonemptydir":
             (target / "old.dat").write_bytes(b"old content inside the target folder\n")
+        if ts == "subdironly":         # nothing but a sub folder (an archived older result, a plots folder) with content deeper down
+            (target / "old.dat").mkdir()
+            (target / "old.dat" / "deep.dat").write_bytes(b"old content two levels below the target folder\n")
     return target
 
 
@@ -164,7 +167,9 @@ def observe(root: Path, target: Path, before: dict, ex) -> tuple:
     same = (tb == ta) if (tb is None or tb[0] == "file" or ta is None) else (ta[0] == "dir")
     child = "none"
     if crel in before:
-        child = "absent" if crel not in after else ("same" if after[crel] == before[crel] else "changed")
+        deep = crel + "/deep.dat"          # the sub-folder-only state: the child is a folder whose content counts as well
+        child = "absent" if crel not in after else \
+            ("same" if after[crel] == before[crel] and (deep not in before or after.get(deep) == before[deep]) else "changed")
     unrelated = [r for r in before if r.endswith(".me")]
     sibling_same = all(after.get(r) == before[r] for r in unrelated)
     new = [r for r in after if r not in before and r not in (trel, "p")]
@@ -191,7 +196,7 @@ def execute_case(chk: Check, case, base: Path, n: int, stats: Counter | None = N
     shutil.rmtree(root, ignore_errors=True)
     chk.evaluations += 1
     chk.traces += 1
-    occupied = call["ts"] in ("file", "nonemptydir")
+    occupied = call["ts"] in ("file", "nonemptydir", "subdironly")
     how = "format inferred" if call["infer"] else "format given"
     desc = f"{call['fn']} format={call['fmt']} allow_overwrite={call['allow']} target={call['ts']}"
     if occupied:
